@@ -29,11 +29,11 @@ TraceInit ==
 StripObs(st) ==
   [st EXCEPT !.ch = [i \in 1..Len(st.ch) |->
       [nm |-> st.ch[i].nm, cid |-> st.ch[i].cid, sl |-> st.ch[i].sl, eb |-> st.ch[i].eb,
-       wt |-> st.ch[i].wt, mp |-> st.ch[i].mp]]]
+       wt |-> st.ch[i].wt, mp |-> st.ch[i].mp, wq |-> st.ch[i].wq]]]
 ObsOf(st) ==
   [st EXCEPT !.ch = [i \in 1..Len(st.ch) |->
       [nm |-> st.ch[i].nm, cid |-> st.ch[i].cid, sl |-> st.ch[i].sl, eb |-> st.ch[i].eb,
-       wt |-> st.ch[i].wt, mp |-> st.ch[i].mp,
+       wt |-> st.ch[i].wt, mp |-> st.ch[i].mp, wq |-> st.ch[i].wq,
        du |-> ChanDur(st.ch[i]), df |-> ChanDurFall(CfgOf(st, i), st.ch[i])]]]
 
 Consume ==
